@@ -575,6 +575,8 @@ class Interp:
         allflat = np.concatenate(flats) if flats else np.zeros(0, dtype=object)
         return [self._take(allflat, pos)]
 
+    p_stack = p_concatenate
+
     def p_pad(self, ins, params, eqn):
         x, padv = _asobj(ins[0]), _asobj(ins[1])
         pos = np.arange(x.size, dtype=np.int64).reshape(x.shape)
@@ -611,7 +613,7 @@ class Interp:
             hit = np.asarray(add_prim.bind(jnp.zeros(x.shape, dtype=np.int64), jnp.asarray(idx), jnp.asarray(onehot.reshape(upd.shape)),
                                            **{**p, "update_jaxpr": None, "update_consts": ()}))
             for ii in zip(*np.nonzero(hit)):
-                res[ii] = (res[ii] + uf[k]) if add else uf[k]
+                res[ii] = (res[ii] + uf[k]) if add is True else ((res[ii] * uf[k]) if add == "mul" else uf[k])
         return [res]
 
     def p_scatter_add(self, ins, params, eqn):
@@ -619,6 +621,9 @@ class Interp:
 
     def p_scatter(self, ins, params, eqn):
         return self._scatter(ins, params, eqn, False)
+
+    def p_scatter_mul(self, ins, params, eqn):
+        return self._scatter(ins, params, eqn, "mul")
 
     def p_iota(self, ins, params, eqn):
         return [np.asarray(eqn.primitive.bind(**params))]
@@ -696,7 +701,12 @@ class Interp:
     def p_scan(self, ins, params, eqn):
         closed = params["jaxpr"]
         length, reverse = params["length"], params["reverse"]
-        nconst, ncarry = params["num_consts"], params["num_carry"]
+        if "num_consts" in params:
+            nconst, ncarry = params["num_consts"], params["num_carry"]
+        else:                     # newer JAX: flattened structure descriptors
+            fti = params["ft_in"]
+            elts = fti.elts if hasattr(fti, "elts") else list(fti)
+            nconst, ncarry = len(elts[0]), len(elts[1])
         consts, carry, xs = ins[:nconst], list(ins[nconst:nconst + ncarry]), ins[nconst + ncarry:]
         ys = None
         order = range(length - 1, -1, -1) if reverse else range(length)
